@@ -60,16 +60,22 @@ class CaseTimeout(BaseException):      # BaseException: library code under test 
 
 @contextlib.contextmanager
 def time_limit(seconds=5):
-    """a case that does not return within the limit counts as a violation (non-termination), not as a hang of the check"""
+    """a case that does not return within the limit counts as a violation (non-termination), not as a hang of the check.
+    The limit is on the CPU time of this process (robust against a loaded machine); a wall-clock limit ten times as long
+    backs it up for code that blocks without using the CPU."""
     def handler(signum, frame):
         raise CaseTimeout()
-    old = signal.signal(signal.SIGALRM, handler)
-    signal.setitimer(signal.ITIMER_REAL, seconds, 0.5)       # re-fires every 0.5 s in case the first one is swallowed
+    old_prof = signal.signal(signal.SIGPROF, handler)
+    old_real = signal.signal(signal.SIGALRM, handler)
+    signal.setitimer(signal.ITIMER_PROF, seconds, 0.5)       # re-fires every 0.5 s in case the first one is swallowed
+    signal.setitimer(signal.ITIMER_REAL, 10 * seconds, 0.5)
     try:
         yield
     finally:
+        signal.setitimer(signal.ITIMER_PROF, 0)
         signal.setitimer(signal.ITIMER_REAL, 0)
-        signal.signal(signal.SIGALRM, old)
+        signal.signal(signal.SIGPROF, old_prof)
+        signal.signal(signal.SIGALRM, old_real)
 
 
 def load_spec_module(name):
